@@ -74,11 +74,11 @@ func r5Filter(m map[string]hrec, pred func(hrec) bool) []string {
 func init() {
 	register(&Check{
 		ID:     "C14",
-		Rule:   "E1 on the pristine table: all records; every day 2001-01-01..(last year+1)-12-31 x {GetHoliday, GetHolidayByYmd, GetHolidays (dashed and undashed keys)}; every month and year x by-month/by-year views; every distinct target and every non-target day x by-target views; Solar.Next(n,true) for every day x n in +-{1..10,15,30} and 0; GetSalaryRate on every day; all compared with reference R5 (parsed record map, sorted filters, day-by-day working-day walk). E2: breadth-first search over Fix histories (alphabet of 14 fix-up calls, depth 2 quick / 3 thorough) from the pristine state, states de-duplicated on the exact (names, table) pair, every view re-compared with R5 after every transition. non-trivial = days carrying a record or lying within 10 days of one, and every Fix transition",
+		Rule:   "E1 on the pristine table: all records; every day 2001-01-01..(last year+1)-12-31 x {GetHoliday, GetHolidayByYmd, GetHolidays (dashed and undashed keys)}; every month and year x by-month/by-year views; every distinct target and every non-target day x by-target views; Solar.Next(n,true) for every day x n in +-{1..10,15,30} and 0; GetSalaryRate on every day; all compared with reference R5 (parsed record map, sorted filters, day-by-day working-day walk). E2: breadth-first search over Fix histories (alphabet of 18 fix-up calls, depth 2 quick / 3 thorough) from the pristine state, states de-duplicated on the exact (names, table) pair, every view re-compared with R5 after every transition. non-trivial = days carrying a record or lying within 10 days of one, and every Fix transition",
 		Assume: []string{"R5: Fix(names, data) = for each 18-character segment insert/overwrite the record of its day, or delete it when the flag is '~'; views are date-ordered filters", "statutory pay-rate days as documented in Solar.GetSalaryRate (Jan 1, May 1, Oct 1-3, lunar 1/1-3, 5/5, 8/15, Qingming day) with lunar dates and Qingming from the library"},
 		Shards: func(tier string, seed int64) []Shard {
 			sh := []Shard{{Kind: "views", Tier: tier, Seed: seed}, {Kind: "walk", Arg: "0", Tier: tier, Seed: seed}, {Kind: "walk", Arg: "1", Tier: tier, Seed: seed}, {Kind: "walk", Arg: "2", Tier: tier, Seed: seed}, {Kind: "walk", Arg: "3", Tier: tier, Seed: seed}}
-			for i := 0; i < 14; i++ {
+			for i := 0; i < 18; i++ {
 				sh = append(sh, Shard{Kind: "fix", Arg: fmt.Sprint(i), Tier: tier, Seed: seed})
 			}
 			return sh
@@ -306,6 +306,11 @@ func c14Fix(w *W) {
 		{"17-characters", nil, "20220101012022010"},
 		{"add-inside-october-2014", nil, "201410090020141001"},
 		{"remove-inside-target-run", nil, "20141005~000000000"},
+		// days whose date also occurs earlier in the table as the *target* of preceding records (make-up days before the festival)
+		{"replace-day-referenced-by-earlier-targets", nil, "200201010020020101"},
+		{"remove-day-referenced-by-earlier-targets", nil, "20020101~000000000"},
+		{"remove-day-referenced-by-two-earlier-targets", nil, "20060501~000000000"},
+		{"replace-day-inside-interleaved-run", nil, "201410040120141001"},
 	}
 	// day- and month-level views are re-compared on the years the alphabet touches (+-1); by-year views on all years
 	fixYears := map[int]bool{}
